@@ -748,6 +748,9 @@ func c09worker(c *hx.Ctx) int {
 		}
 		all = append(all, res...)
 	}
+	if rep.HarnessErr == "" {
+		c09pairs(c, rep, sets)
+	}
 	for _, r := range all {
 		line := r.Key + "\t" + r.Class
 		if r.Class != "" {
